@@ -478,8 +478,8 @@ package main
 //@   trusted map lookup (decoded entries or the index)
 
 //@ func appendListedPackages
-//@   property C14
-//@   hooks listing
+//@   property C14 C06 C12
+//@   hooks listing buildids pkgactionid
 //@   maxpaths 4000
 //@   skip safety call-requires
 //@   requires !anySelected
@@ -1130,7 +1130,8 @@ package main
 //@   ensures @one-argument-form-stays-one-argument: old(newName) == "" ==> r1 == ""
 //@   ensures @names-without-a-package-are-kept: old(newName) != "" && strings.Count(old(newName), ".") < 1 ==> r1 == old(newName)
 //@   ensures @runtime-special-symbols-are-kept: old(newName) == "main.main" || old(newName) == "main..inittask" || old(newName) == "runtime..inittask" ==> r1 == old(newName)
-//@   ensures @rewritten-targets-start-with-the-obfuscated-package-path: r1 != old(newName) ==> lnListed != nil && lnListed.ToObfuscate && strings.HasPrefix(r1, lnObfPath + ".")
+//@   ensures @only-targets-in-selected-packages-are-rewritten: r1 != old(newName) ==> lnListed != nil && lnListed.ToObfuscate
+//@   ensures @rewritten-targets-are-the-obfuscated-package-path-dot-the-new-name: r1 != old(newName) ==> r1 == lnObfPath + "." + newForeignName
 //@ end
 
 //@ hookset directives
@@ -1150,4 +1151,51 @@ package main
 //@   unclaimed transformLinkname/requires because a //go:linkname without a local name does not compile
 //@   unclaimed directiveLocalName/requires because an empty cgo import name is not produced by cmd/cgo
 //@   unclaimed obfuscatedImportPath/requires because listed packages have non-empty import paths by construction of go list
+//@ end
+
+// ---- C06/C12: where the per-package garble action id and the tool id come from ----
+
+//@ ghost decodedFrom string
+//@ ghost decodedRef ref
+//@ ghost toolSum string
+//@ ghost toolEncoded string
+
+//@ hookset buildids
+//@ hook before mvdan.cc/garble.decodeBuildIDHash(s)
+//@   decodedFrom = s
+//@ hook after mvdan.cc/garble.decodeBuildIDHash(s) (r)
+//@   decodedRef = ref(r)
+//@ end
+
+//@ hookset pkgactionid
+//@ hook before mvdan.cc/garble.addGarbleToHash(in)
+//@   assert("[C06,C12] garble-action-id-is-derived-from-the-go-action-id-of-the-package", ref(in) == decodedRef && decodedFrom == pkg.BuildID[:strings.Index(pkg.BuildID, "/")])
+//@ end
+
+//@ hookset toolid
+//@ hook before mvdan.cc/garble.addGarbleToHash(in)
+//@   assert("release-tool-id-is-the-whole-version-line", f[2] != "devel" ==> str(in) == line)
+//@   assert("devel-tool-id-is-the-content-id-of-the-tool", f[2] == "devel" ==> ref(in) == decodedRef && decodedFrom == f[len(f)-1][strings.LastIndex(f[len(f)-1], "/")+1:])
+//@ hook after mvdan.cc/garble.addGarbleToHash(in) (out)
+//@   toolSum = str(out[:])
+//@ hook before mvdan.cc/garble.encodeBuildIDHash(h)
+//@   assert("reported-content-id-is-the-garble-hash-of-the-tool-id", str(h[:]) == toolSum)
+//@ hook after mvdan.cc/garble.encodeBuildIDHash(h) (r)
+//@   toolEncoded = r
+//@ hook before fmt.Printf(format, a0, a1)
+//@   assert("version-line-ends-with-the-garble-content-id", format == "%s +garble buildID=_/_/_/%s\n" && a0 == line && a1 == toolEncoded)
+//@ end
+
+//@ func encodeBuildIDHash
+//@   property C06
+//@   assigns nothing
+//@   ensures @first-fifteen-bytes-url-encoded: r0 == base64.RawURLEncoding.EncodeToString(h[:15])
+//@ end
+
+//@ func alterToolVersion
+//@   property C06
+//@   hooks buildids toolid
+//@   skip safety
+//@   may_panic when true
+//@   unclaimed addGarbleToHash/requires because the shared cache is loaded by the caller before any tool is wrapped
 //@ end
